@@ -213,9 +213,9 @@ func (r *Renderer) exprI(n *Node, indent string) string { //nolint:gocyclo,funle
 		case "cond", "count":
 			head = r.Expr(n.Kids[0], pLowest+1)
 		case "var", "list":
-			head = n.Name + " = " + r.Expr(n.Kids[0], pAssign+1)
+			head = n.Name + forEq(n) + r.Expr(n.Kids[0], pAssign+1)
 		case "range":
-			head = n.Name + " = " + r.Expr(n.Kids[0], precOf[":"]) + ":" + r.Expr(n.Kids[1], precOf[":"]+1)
+			head = n.Name + forEq(n) + r.Expr(n.Kids[0], precOf[":"]) + ":" + r.Expr(n.Kids[1], precOf[":"]+1)
 		}
 		return "for " + head + " " + r.Block(n.Body, indent)
 	case KReturn:
@@ -229,6 +229,13 @@ func (r *Renderer) exprI(n *Node, indent string) string { //nolint:gocyclo,funle
 		return "continue"
 	}
 	return "?"
+}
+
+func forEq(n *Node) string {
+	if n.Define {
+		return " := "
+	}
+	return " = "
 }
 
 func (r *Renderer) lambdaParams(n *Node) string {
